@@ -63,6 +63,11 @@ func runC10(s *Sim) {
 		}
 	}
 	s.Broker.Cfg = auto
+	if w := Pick(t, "link-window", 0, 0, 1, 2); w > 0 {
+		// a broker that is slow to take frames: stream writes are still parked in the link when Close runs
+		s.Net.Window = w
+		s.Stat("env.link-backpressure")
+	}
 	if hd := Pick(t, "hook-delay", time.Duration(0), 0, 2*time.Millisecond, 20*time.Millisecond); hd > 0 {
 		// application callbacks that take time: notifications pile up behind them
 		for _, h := range y.Ups {
@@ -167,6 +172,19 @@ func runC10(s *Sim) {
 	}
 	s.Family = "close-final/" + outage
 
+	if s.Net.Window > 0 && outage == "none" && t.Bool("traffic-parked-at-close", 2, 3) {
+		// data is buffered in the streams and the link is full when the closes start: the streams'
+		// final flushes are parked in the link while Close sends its own messages
+		n++
+		if s.Idle(4) {
+			s.Start(4, y.sendMetaOp(fmt.Sprintf("pre-close-bt-%d", n)))
+		}
+		if len(y.Ups) > 0 && s.Idle(1) {
+			s.Start(1, y.writeOp(y.Ups[t.Choose("h-up", len(y.Ups))], 1, dataID(n%3), []int{16, 200}))
+		}
+		s.Wait()
+		s.Stat("env.traffic-parked-at-close")
+	}
 	// ---- the closes ----
 	type target struct {
 		kind string
